@@ -12,6 +12,8 @@ type Req struct {
 	Monitor    bool   `json:"monitor,omitempty"`    // attach a monitor
 	Procs      int    `json:"procs,omitempty"`      // GOMAXPROCS (0 = leave)
 	YieldSeed  uint64 `json:"yield_seed,omitempty"` // schedule perturbation seed (0 = none)
+	StallMs    int    `json:"stall_ms,omitempty"`   // with YieldSeed: the StallAt-th hook point visited sleeps this long (a process descheduled for longer than the interpreter's inactivity timer)
+	StallAt    uint64 `json:"stall_at,omitempty"`
 	Entry      string `json:"entry,omitempty"`      // "" piecewise API (benchmarks.runTiming style), "init" = InitializeProcesses
 	NoCheck    bool   `json:"nocheck,omitempty"`    // skip typechecking (Typechecked=false)
 	TimeoutMs  int    `json:"timeout_ms,omitempty"` // quiescence deadline
@@ -116,47 +118,47 @@ type RuleD struct {
 type Resp struct {
 	Op string `json:"op"`
 
-	ParseOK   bool   `json:"parse_ok"`
-	ParseErr  string `json:"parse_err,omitempty"`
-	ParseUs   int64  `json:"parse_us,omitempty"`
-	ParseCPUUs int64 `json:"parse_cpu_us,omitempty"` // CPU time of the parsing thread
-	ParseAllocBytes int64 `json:"parse_alloc_bytes,omitempty"`
-	ParseMallocs    int64 `json:"parse_mallocs,omitempty"`
-	CheckRan  bool   `json:"check_ran,omitempty"`
-	CheckOK   bool   `json:"check_ok,omitempty"`
-	CheckErr  string `json:"check_err,omitempty"`
-	CheckUs   int64  `json:"check_us,omitempty"`
-	Settled   bool   `json:"settled,omitempty"`   // no typechecker goroutine running/runnable any more
-	Leftover  int    `json:"leftover,omitempty"`  // typechecker goroutines parked forever
-	Dump      *Dump  `json:"dump,omitempty"`      // declarations after parse (and after check if it ran)
-	InternalE string `json:"internal,omitempty"`  // harness-side problem inside the worker (not a Grits fault)
+	ParseOK         bool   `json:"parse_ok"`
+	ParseErr        string `json:"parse_err,omitempty"`
+	ParseUs         int64  `json:"parse_us,omitempty"`
+	ParseCPUUs      int64  `json:"parse_cpu_us,omitempty"` // CPU time of the parsing thread
+	ParseAllocBytes int64  `json:"parse_alloc_bytes,omitempty"`
+	ParseMallocs    int64  `json:"parse_mallocs,omitempty"`
+	CheckRan        bool   `json:"check_ran,omitempty"`
+	CheckOK         bool   `json:"check_ok,omitempty"`
+	CheckErr        string `json:"check_err,omitempty"`
+	CheckUs         int64  `json:"check_us,omitempty"`
+	Settled         bool   `json:"settled,omitempty"`  // no typechecker goroutine running/runnable any more
+	Leftover        int    `json:"leftover,omitempty"` // typechecker goroutines parked forever
+	Dump            *Dump  `json:"dump,omitempty"`     // declarations after parse (and after check if it ran)
+	InternalE       string `json:"internal,omitempty"` // harness-side problem inside the worker (not a Grits fault)
 
 	// run
-	Ran       bool     `json:"ran,omitempty"`
-	Prints    []string `json:"prints,omitempty"`
-	Stdout    string   `json:"stdout,omitempty"` // non-print stdout text (truncated)
-	Rules     []RuleD  `json:"rules,omitempty"`
-	Quiescent bool     `json:"quiescent,omitempty"`
-	Timeout   bool     `json:"timeout,omitempty"`
-	BusyAfterCancel int    `json:"busy_after_cancel,omitempty"` // process goroutines still running (not parked) 10 s after a timed-out run was cancelled
-	Polls     int      `json:"polls,omitempty"`
-	Final     []Site   `json:"final,omitempty"`
-	NRecv     int      `json:"n_recv,omitempty"`
-	NSend     int      `json:"n_send,omitempty"`
-	NOther    int      `json:"n_other,omitempty"`
-	Goroutines int     `json:"goroutines,omitempty"` // max run goroutines seen
-	ProcCount uint64   `json:"proc_count,omitempty"`
-	DeadCount uint64   `json:"dead_count,omitempty"`
-	RunUs     int64    `json:"run_us,omitempty"`
-	Stacks    string   `json:"stacks,omitempty"`
-	YieldPts  uint64   `json:"yield_pts,omitempty"`
+	Ran             bool     `json:"ran,omitempty"`
+	Prints          []string `json:"prints,omitempty"`
+	Stdout          string   `json:"stdout,omitempty"` // non-print stdout text (truncated)
+	Rules           []RuleD  `json:"rules,omitempty"`
+	Quiescent       bool     `json:"quiescent,omitempty"`
+	Timeout         bool     `json:"timeout,omitempty"`
+	BusyAfterCancel int      `json:"busy_after_cancel,omitempty"` // process goroutines still running (not parked) 10 s after a timed-out run was cancelled
+	Polls           int      `json:"polls,omitempty"`
+	Final           []Site   `json:"final,omitempty"`
+	NRecv           int      `json:"n_recv,omitempty"`
+	NSend           int      `json:"n_send,omitempty"`
+	NOther          int      `json:"n_other,omitempty"`
+	Goroutines      int      `json:"goroutines,omitempty"` // max run goroutines seen
+	ProcCount       uint64   `json:"proc_count,omitempty"`
+	DeadCount       uint64   `json:"dead_count,omitempty"`
+	RunUs           int64    `json:"run_us,omitempty"`
+	Stacks          string   `json:"stacks,omitempty"`
+	YieldPts        uint64   `json:"yield_pts,omitempty"`
 
 	// eqtype / unfold / modes
-	Bools    []bool   `json:"bools,omitempty"`
-	Bools2   []bool   `json:"bools2,omitempty"`
-	Bools3   []bool   `json:"bools3,omitempty"`
-	Strs     []string `json:"strs,omitempty"`
-	Tys      []*Ty    `json:"tys,omitempty"`
+	Bools  []bool   `json:"bools,omitempty"`
+	Bools2 []bool   `json:"bools2,omitempty"`
+	Bools3 []bool   `json:"bools3,omitempty"`
+	Strs   []string `json:"strs,omitempty"`
+	Tys    []*Ty    `json:"tys,omitempty"`
 
 	// modetable
 	Table map[string]interface{} `json:"table,omitempty"`
